@@ -58,7 +58,7 @@ MANIFEST = {
 
 L2PI = 2.0 * math.pi
 WM = 8
-POLE_TOL = {0: 5e-4, 2: 5e-4, 4: 5e-4, 6: 1e-3, 8: 3e-3, 10: 1e-2}
+POLE_TOL = {0: 5e-4, 1: 5e-4, 2: 5e-4, 3: 5e-4, 4: 5e-4, 5: 1e-3, 6: 1e-3, 7: 3e-3, 8: 3e-3, 9: 1e-2, 10: 1e-2}
 KAVG_TOL = 5e-4
 
 
@@ -136,7 +136,7 @@ def make_cases(ctx):
                     continue
                 if quick and rng.random() < (0.55 if n > 4 else 0.3):
                     continue
-                poles = rng.choice([[], [0], [0, 2], [0, 2, 4], [2], [0, 2, 4, 6], [0, 4, 8], [0, 10]])
+                poles = rng.choice([[], [0], [0, 2], [0, 2, 4], [2], [0, 2, 4, 6], [0, 4, 8], [0, 10], [1], [0, 1, 3], [5, 0, 3], [7, 2], [9, 1]])
                 cases.append({'kind': 'kmu', 'n': n, 'L': 'two_pi', 'kname': kname, 'kedges': ked, 'kgen': None,
                               'mname': mname, 'mu': mu, 'w': wspec(), 'nthread': rng.choice(threads), 'poles': poles,
                               'fourier': True})
@@ -144,7 +144,7 @@ def make_cases(ctx):
             for (mname, mu) in (MU_FAMS[0], MU_FAMS[3]):
                 cases.append({'kind': 'kmu', 'n': n, 'L': rng.choice(['two_pi', 1000.0, 250.0]), 'kname': kname,
                               'kedges': None, 'kgen': [gen, list(args)], 'mname': mname, 'mu': mu, 'w': wspec(),
-                              'nthread': rng.choice(threads), 'poles': rng.choice([[], [0, 2, 4]]), 'fourier': True})
+                              'nthread': rng.choice(threads), 'poles': rng.choice([[], [0, 2, 4], [0, 1, 2, 3]]), 'fourier': True})
         # configuration space flavour (dk = L / n1d): same kernel, r bins
         cases.append({'kind': 'kmu', 'n': n, 'L': float(n), 'kname': 'half-int-above-all', 'kedges': kf[0][1], 'kgen': None,
                       'mname': 'one', 'mu': [0.0, 1.0], 'w': wspec(), 'nthread': rng.choice(threads), 'poles': [0, 2],
@@ -172,6 +172,9 @@ def make_cases(ctx):
                           'w': wspec(), 'nthread': rng.choice(threads), 'fourier': True})
     for i, c in enumerate(cases):
         c['id'] = i
+        # numba's process-wide thread count in force when the kernel is entered (left behind by earlier numba code):
+        # below, equal to and above the requested nthread
+        c['entry_threads'] = rng.choice([1, 2, 16, c['nthread'], max(1, c['nthread'] - 1)])
     return cases
 
 
@@ -215,11 +218,13 @@ def _mesh(c):
 def impl_cases(payload):
     """Run bin_kmu / bin_kppi on the cases.  Returns per case the float32 squared edges (what the kernel compares with,
     recomputed here with the same NumPy expression the kernel uses) and the raw outputs."""
+    import numba
     import numpy as np
     from abacusnbody.analysis.power_spectrum import bin_kmu, bin_kppi
-    from vlib.implrun import classify
+    from vlib.implrun import classify, stream
     out = []
     for c in payload['cases']:
+        numba.set_num_threads(int(c.get('entry_threads', 16)))
         r = _resolve(c)
         n = c['n']
         W = _mesh(c)
@@ -247,6 +252,7 @@ def impl_cases(payload):
         except Exception as e:  # noqa: BLE001
             rec.update({'class': classify(e), 'error': repr(e)[:200]})
         out.append(rec)
+        stream(payload, rec)
     return out
 
 
@@ -293,6 +299,17 @@ def legendre_exact(ell, mu2):
     for k in range(ell // 2 + 1):
         tot += (-1) ** k * math.comb(ell, k) * math.comb(2 * ell - 2 * k, ell) * mu2 ** ((ell - 2 * k) // 2)
     return tot / 2 ** ell
+
+
+def legendre_abs(ell, mu2):
+    """P_ell(|mu|) from mu^2: exact for even ell; for odd ell P_ell(mu) = mu * (polynomial in mu^2) evaluated in float64 with
+    |mu| = sqrt(mu2) (the kernel works from mu^2, so both members of a conjugate pair contribute P_ell(|mu|))."""
+    if ell % 2 == 0:
+        return legendre_exact(ell, mu2)
+    tot = Fraction(0)
+    for k in range(ell // 2 + 1):
+        tot += (-1) ** k * math.comb(ell, k) * math.comb(2 * ell - 2 * k, ell) * mu2 ** ((ell - 1 - 2 * k) // 2)
+    return math.sqrt(float(mu2)) * float(tot / 2 ** ell)
 
 
 def legendre_bonnet(ell, mu):
@@ -361,7 +378,7 @@ def oracle(c, rec):
                     for ip, ell in enumerate(poles):
                         if ell != 0:
                             mu2 = Fraction(fc2, k2) if k2 > 0 else Fraction(0)
-                            psum[ip][bk] += v * (2 * ell + 1) * legendre_exact(ell, mu2)
+                            psum[ip][bk] += v * (2 * ell + 1) * legendre_abs(ell, mu2)
                             pabs[ip][bk] += v * (2 * ell + 1)
     res = {'counts': [x for row in cnt for x in row], 'wsum': [x for row in ws for x in row]}
     if c['kind'] == 'kmu':
@@ -518,8 +535,8 @@ def run_modes(ctx, cases):
     def run_pair(cs, env):
         a, b = split(cs)
         with concurrent.futures.ThreadPoolExecutor(max_workers=2) as ex:
-            fa = ex.submit(ctx.run_impl, 'harness.c08', 'impl_cases', {'cases': a}, env) if a else None
-            fb = ex.submit(ctx.run_impl, 'harness.c08', 'impl_cases', {'cases': b}, env) if b else None
+            fa = ex.submit(ctx.run_impl_resilient, 'harness.c08', 'impl_cases', {'cases': a}, 'cases', env) if a else None
+            fb = ex.submit(ctx.run_impl_resilient, 'harness.c08', 'impl_cases', {'cases': b}, 'cases', env) if b else None
             ra = fa.result() if fa else []
             rb = fb.result() if fb else []
         by_id = {}
@@ -539,6 +556,10 @@ def pn_points():
     for ell in (0, 2, 4, 6, 8, 10):
         for num in range(0, 9):
             pts.append((num, 8, ell))
+    # odd orders: x = mu^2 with mu = num/8, P_n(x, ell) = P_ell(mu) (half-integer powers of x)
+    for ell in (1, 3, 5, 7, 9):
+        for num in range(0, 9):
+            pts.append((num * num, 64, ell))
     return pts
 
 
@@ -547,7 +568,7 @@ def check_pn(ctx):
     got = ctx.run_impl('harness.c08', 'impl_pn', {'points': pts})
     bad = []
     for (num, den, ell), g in zip(pts, got):
-        want = legendre_exact(ell, Fraction(num, den))
+        want = legendre_exact(ell, Fraction(num, den)) if ell % 2 == 0 else legendre_bonnet(ell, Fraction(math.isqrt(num), 8))
         coef = sum(math.comb(ell, k) * math.comb(2 * ell - 2 * k, ell) for k in range(ell // 2 + 1)) / 2 ** ell
         if abs(g - float(want)) > 2e-6 * coef:
             bad.append({'x': f'{num}/{den}', 'ell': ell, 'got': g, 'want': float(want)})
@@ -592,6 +613,18 @@ def explore(ctx):
     for c in cases:
         rb = bc[c['id']]
         rp = plain.get(c['id'])
+        crashed = [(m, r) for m, r in (('boundscheck', rb), ('compiled', rp)) if r is not None and r.get('class') == 'crash']
+        if crashed:
+            key = f"bin_{c['kind']}:process-crash"
+            old = counterexamples.get(key)
+            if old is None or size_of(c) < size_of(old['input']):
+                counterexamples[key] = {
+                    'key': key, 'what': f"bin_{c['kind']} ({crashed[0][0]}) n1d={c['n']}: the interpreter died while running this case "
+                                        f"(abort / segfault: memory was corrupted by an out-of-bounds write)",
+                    'input': c, 'impl_result': crashed[0][1], 'expected': 'the kernel returns', 'mode': crashed[0][0],
+                    'predicate': 'no element access outside the array bounds'}
+            if 'kedges2' not in rb:
+                continue
         if ambiguous(c, rb):
             dist['dropped_ambiguous'] += 1
             continue
@@ -601,12 +634,17 @@ def explore(ctx):
         dist['by_n'][str(c['n'])] = dist['by_n'].get(str(c['n']), 0) + 1
         dist['by_kfamily'][c['kname']] = dist['by_kfamily'].get(c['kname'], 0) + 1
         dist['by_threads'][str(c['nthread'])] = dist['by_threads'].get(str(c['nthread']), 0) + 1
+        rel = 'below' if c['entry_threads'] < c['nthread'] else 'equal' if c['entry_threads'] == c['nthread'] else 'above'
+        dist.setdefault('entry_thread_count_vs_requested', {}).setdefault(rel, 0)
+        dist['entry_thread_count_vs_requested'][rel] += 1
+        if any(p % 2 for p in (c.get('poles') or [])):
+            dist['with_odd_poles'] = dist.get('with_odd_poles', 0) + 1
         dist['with_poles'] += bool(c.get('poles'))
         dist['modes_on_edges'] += c['kname'].startswith('int-on-edges')
         dist['kmax_below_nyquist'] += c['kname'] in ('half-int-below-nyq',)
         exp = oracle(c, rb)
         for mode, rec in (('boundscheck', rb), ('compiled', rp)):
-            if rec is None:
+            if rec is None or rec.get('class') == 'crash':
                 continue
             evaluations += 1
             terms.append(coqio.tup([case_term(c, rb), impl_val(rec)]))
@@ -619,7 +657,7 @@ def explore(ctx):
         if c['n'] >= 3 and sum(exp['counts']) > 0:
             nontrivial.add((c['kind'], c['n'], c['kname'], c.get('mname') or c.get('pname'), c['nthread']))
         for mode, rec in (('boundscheck', rb), ('compiled', rp)):
-            if rec is None:
+            if rec is None or rec.get('class') == 'crash':
                 continue
             symptom, detail = judge(c, rec, exp)
             if symptom:
@@ -638,13 +676,23 @@ def explore(ctx):
     by_id = {c['id']: c for c in cases}
     if ctx.model_available:
         # hand model of P_n (Model.P_n_even) against the exact values of the independent explicit sum of this harness
+        even_pts = [p for p in pts if p[2] % 2 == 0]
         pn_terms = [coqio.tup([coqio.tup([coqio.q(Fraction(num, den)), coqio.z(ell)]),
-                               coqio.VQ(legendre_exact(ell, Fraction(num, den)))]) for (num, den, ell) in pts]
+                               coqio.VQ(legendre_exact(ell, Fraction(num, den)))]) for (num, den, ell) in even_pts]
         bad, err = coq.eval_mismatches(ctx.scratch, 'c08pn', IMPORTS, 'run_pn', pn_terms)
         if err:
             mismatches.append({'error': err})
         for bidx in bad[:2]:
-            mismatches.append({'P_n_model': pts[bidx], 'expected': str(legendre_exact(pts[bidx][2], Fraction(pts[bidx][0], pts[bidx][1])))})
+            mismatches.append({'P_n_model': even_pts[bidx], 'expected': str(legendre_exact(even_pts[bidx][2], Fraction(even_pts[bidx][0], even_pts[bidx][1])))})
+        # either parity, as a polynomial in mu (Model.P_n_mu), against the Bonnet recursion
+        mu_pts = [(num, ell) for ell in range(0, 11) for num in range(0, 9)]
+        mu_terms = [coqio.tup([coqio.tup([coqio.q(Fraction(num, 8)), coqio.z(ell)]),
+                               coqio.VQ(legendre_bonnet(ell, Fraction(num, 8)))]) for (num, ell) in mu_pts]
+        bad, err = coq.eval_mismatches(ctx.scratch, 'c08pnmu', IMPORTS, 'run_pn_mu', mu_terms)
+        if err:
+            mismatches.append({'error': err})
+        for bidx in bad[:2]:
+            mismatches.append({'P_n_mu_model': mu_pts[bidx]})
         for kind, run in (('kmu', 'run_kmu'), ('kppi', 'run_kppi')):
             sel = [i for i, (cid, _) in enumerate(owners) if by_id[cid]['kind'] == kind]
             bad, err = coq.eval_mismatches(ctx.scratch, 'c08' + kind, IMPORTS, run, [terms[i] for i in sel], chunk=40)
@@ -713,10 +761,12 @@ def replay(ctx, rec):
         return bool(bad), {'P_n': bad[:3]}
     c = dict(c)
     c.setdefault('id', 0)
-    rb = ctx.run_impl('harness.c08', 'impl_cases', {'cases': [c]}, {'NUMBA_BOUNDSCHECK': '1'})[0]
+    rb = ctx.run_impl_resilient('harness.c08', 'impl_cases', {'cases': [c]}, 'cases', {'NUMBA_BOUNDSCHECK': '1'})[0]
     out = {'boundscheck': rb}
     if rb['class'] == 'ok':
-        out['compiled'] = ctx.run_impl('harness.c08', 'impl_cases', {'cases': [c]})[0]
+        out['compiled'] = ctx.run_impl_resilient('harness.c08', 'impl_cases', {'cases': [c]})[0]
+    if any(r.get('class') == 'crash' for r in out.values()):
+        return True, {'input': c, 'impl_result': out, 'why': 'the interpreter died while running this case'}
     exp = oracle(c, rb)
     if 'skip' in exp:
         return False, {'input': c, 'skipped': exp['skip']}
